@@ -8,3 +8,4 @@ pub mod c05;
 pub mod worst;
 pub mod c06;
 pub mod c08;
+pub mod c09;
